@@ -5,6 +5,8 @@ package main
 //   find17 <opts> <n> (<namehex> <texthex>){n} <nq> (<start module hex> <nsteps> step* <path hex>){nq}
 //     a name token written @<hex> puts the text into a directory of the search path (Modules.AddPath) instead of
 //     parsing it: the module is then found only while Process resolves imports and includes
+//     a name token written !<hex>: the tree of that module is obtained with Modules.GetModule(name) after Process
+//     (lookups that lead into it must return the nodes of THAT tree)
 //     opts: c, n as for process; l = after Process and after the module trees have been collected, load an unrelated
 //     module, a rejected text and a missing file WITHOUT calling Process again, then run the queries
 //     step = C<hex> (child of Dir) | I (RPC.Input) | O (RPC.Output); the start module may be a submodule
@@ -62,6 +64,7 @@ func runFind17(toks []string) string {
 	ms.ParseOptions.DeviateOptions.IgnoreDeviateNotSupported = strings.Contains(opts, "n")
 	out := &find17Out{Loads: []string{}, Runs: []*runDump{}, Find: []string{}}
 	pos := 2
+	viaGet := ""
 	pathDir := ""
 	defer func() {
 		if pathDir != "" {
@@ -70,6 +73,10 @@ func runFind17(toks []string) string {
 	}()
 	for i := 0; i < n; i++ {
 		onPath := strings.HasPrefix(toks[pos], "@")
+		if strings.HasPrefix(toks[pos], "!") {
+			viaGet = strings.TrimSuffix(string(unhex(toks[pos][1:])), ".yang")
+			toks[pos] = toks[pos][1:]
+		}
 		name, text := string(unhex(strings.TrimPrefix(toks[pos], "@"))), string(unhex(toks[pos+1]))
 		pos += 2
 		if onPath {
@@ -102,9 +109,22 @@ func runFind17(toks []string) string {
 	if len(run.Errors) == 0 {
 		roots := map[*yang.Entry]string{}
 		byName := map[string]*yang.Entry{}
+		var got *yang.Entry
+		if viaGet != "" {
+			// the tree of this module is the one Modules.GetModule hands out (it processes once more), the others are
+			// taken from ToEntry afterwards
+			g, errs := ms.GetModule(viaGet)
+			if len(errs) != 0 || g == nil {
+				run.Errors = append(run.Errors, "GetModule failed")
+			}
+			got = g
+		}
 		for _, mm := range []map[string]*yang.Module{ms.Modules, ms.SubModules} {
 			for _, m := range mm {
 				e := yang.ToEntry(m)
+				if got != nil && m.Name == viaGet && mm[viaGet] == m {
+					e = got
+				}
 				roots[e] = m.Name
 				byName[m.Name] = e
 			}
